@@ -1,6 +1,6 @@
 (* C18 — targets agree on everything that is target-independent.  Property theorems only. *)
 From Coq Require Import List NArith Bool String.
-From RV Require Import Macro MacroProofs MacroIrrelevant Bindings BindingsProofs GenBindings.
+From RV Require Import Macro MacroProofs MacroIrrelevant Bindings BindingsProofs GenBindings GenDefines.
 Import ListNotations.
 Local Open Scope string_scope.
 
@@ -60,7 +60,20 @@ Example C18_example :
   apply_macros pastef (d "1") [MId "RSSL_TARGET_HLSL"] <> apply_macros pastef (d "0") [MId "RSSL_TARGET_HLSL"].
 Proof. vm_compute. split; [reflexivity | discriminate]. Qed.
 
+(* ---- the premise of the two macro theorems, as an obligation on the source: the section of compile() that builds the
+        initial macro table (regenerated from src/compile.rs on every run) consists of unconditional pushes only, and
+        every macro other than RSSL_TARGET_HLSL / RSSL_TARGET_MSL is pushed with a literal value; so the tables of two
+        targets differ in the definitions of those two names only ---- *)
+Theorem C18_initial_defines_differ_only_in_target_macros :
+  forallb (fun r : string * string * bool * string =>
+             let '(kind, name, nested, value) := r in
+             String.eqb kind "push" && negb nested &&
+             (String.eqb name "RSSL_TARGET_HLSL" || String.eqb name "RSSL_TARGET_MSL" || negb (String.eqb value "<computed>")))
+          initial_defines = true.
+Proof. vm_compute. reflexivity. Qed.
+
 Print Assumptions C18_target_macros_irrelevant_for_tokens.
+Print Assumptions C18_initial_defines_differ_only_in_target_macros.
 Print Assumptions C18_target_macros_irrelevant_for_files.
 Print Assumptions C18_bound_set_is_target_independent.
 Print Assumptions C18_inline_only_for_buffer_addresses.
